@@ -994,6 +994,10 @@ def dense_shapes():
         # where it starts takes the closing one for an opening one
         "run of instances whose read gives up on an apostrophe": "#%d=BARE('';\n",
         "run of instances whose read gives up inside a string": "#%d=POINT('a,b';\n",
+        # the character the read gives up on is the record's own `;`: the scan for the end of the record then runs to the
+        # next `;` - one record too far, which ReadInstance undoes; it must not be more than that
+        "run of instances that end after the keyword": "#%d=BARE;\n",
+        "run of instances with attributes that end after the keyword": "#%d=POINT;\n",
         # an aggregate of aggregates is kept as raw text by SCLundefined::STEPread / PushPastImbedAggr
         "run of instances that end inside a nested aggregate": "#%d=KINDS(" + ",".join(KINDS_VALS[:11]) + ",((1,2),(3;\n",
         "run of instances that end after an element of an aggregate of aggregates": "#%d=KINDS(" + ",".join(KINDS_VALS[:11]) + ",((1,2),;\n",
